@@ -578,11 +578,17 @@ class Connection(object):
         if not self.connected and self.handle_exit is not None:
             self.handle_exit()
 
-    def _react(self, packet):
+    def _react(self, packet, thread=None):
         try:
             for listener in self.early_packet_listeners:
                 listener.call_packet(packet)
-            self.reactor.react(packet)
+            with self._write_lock:
+                # A disconnect() from another thread ends the conversation
+                # that the networking thread 'thread' read this packet for,
+                # and a new connection may already be in progress: the
+                # built-in reaction would then act on the wrong connection.
+                if thread is None or not thread.interrupt:
+                    self.reactor.react(packet)
             for listener in self.packet_listeners:
                 listener.call_packet(packet)
         except IgnorePacket:
@@ -645,7 +651,7 @@ class NetworkingThread(threading.Thread):
                 if not packet:
                     break
                 num_packets += 1
-                self.connection._react(packet)
+                self.connection._react(packet, self)
                 read_timeout = 0
 
                 # Ignore the earlier exception if a disconnect packet is
